@@ -1,4 +1,4 @@
 SPECIFICATION Spec
-CONSTANTS Majors = {5, 6, 7} Minors = {0, 2, 5, 6} Patches = {0, 1} Builds = {0, 1}
+CONSTANTS Majors = {5, 6, 7} Minors = {0, 2, 5, 6} Patches = {0, 1} Builds = {0, 1, 10080}
 INVARIANTS Trichotomy Antisymmetry Transitivity IsLexOrder GatesMonotone RoundTrip Emit
 CHECK_DEADLOCK FALSE
